@@ -12,4 +12,18 @@ def main(pid, tier, repo=None):
         limit.run(ctx, LIB_CRATES)
         block.run_block(ctx, LIB_CRATES)
         block.run_eof_bitstream(ctx)
-    return ctx.finish("R-LIMIT/R-RAWINT/R-EOF/R-BLOCK on MIR")
+        # the one place a decode call can block: the render-handle wait (shared with C08/C20)
+        from . import proto
+        infos = proto.scan_all(ctx)
+        proto.rule_rendering(ctx, infos)
+        proto.rule_done_render(ctx, infos)
+        proto.rule_wait(ctx, infos)
+    ctx.not_decided("absence of panics in general (thousands of overflow/bounds asserts depend on invariants established elsewhere)")
+    ctx.not_decided("termination of loops whose trip count is validated in another function; Brotli output size")
+    return ctx.finish(
+        "The four mechanisms the property names, decided on MIR for every input: (R-RAWINT) raw entropy-decoded integers never reach "
+        "panicking 32-bit arithmetic, shift amounts, divisors, negation or abs() without a dominating ordering comparison - every "
+        "report is a reachable panic because the stream chooses the integer configuration; (R-LIMIT) the named input limits exist as "
+        "compare->error checks with the reviewed bound; (R-EOF) the bit counter is only decreased through checked_sub and end of data "
+        "is an error value; (R-BLOCK) no blocking primitive besides the render-handle wait, no lock re-acquired while held, and the "
+        "wait itself cannot be stranded (R-RENDERING / R-PROTO-* of C08/C20).")
